@@ -33,7 +33,7 @@ func genC16(r *simrt.RNG, tier string, variant int) Plan {
 	for ci := range p.Clients {
 		n := 1 + r.Intn(4)
 		for i := 0; i < n; i++ {
-			op := Op{Kind: "rev", Client: ci, Tok: tok, N: r.Intn(3), Hold: r.Bool(0.5)}
+			op := Op{Kind: "rev", Client: ci, Tok: tok, N: r.Intn(3), Hold: r.Bool(0.5), IgnoreCtx: r.Bool(0.3)}
 			if r.Bool(0.2) {
 				op.Kind = "call"
 			} else if r.Bool(0.2) {
@@ -51,7 +51,7 @@ func genC16(r *simrt.RNG, tier string, variant int) Plan {
 		// re-established connection, where the server's reverse ids start again)
 		p.Clients[0].NoReconnect = false
 		for i := 0; i < 1+r.Intn(3); i++ {
-			p.Ops = append(p.Ops, Op{Kind: "rev", Client: 0, Tok: tok, N: r.Intn(2), Hold: r.Bool(0.3), Phase: 1})
+			p.Ops = append(p.Ops, Op{Kind: "rev", Client: 0, Tok: tok, N: r.Intn(2), Hold: r.Bool(0.3), Phase: 1, IgnoreCtx: r.Bool(0.3)})
 			tok++
 		}
 		if r.Bool(0.5) {
